@@ -30,7 +30,7 @@ impl ChildSpec {
         let script = if omega {
             vec![]
         } else {
-            s.chars().map(|c| if c == 'I' { Step::Item } else { Step::Pend }).collect()
+            s.chars().map(|c| if c == 'I' { Step::Item } else if c == 'J' { Step::ItemWake } else { Step::Pend }).collect()
         };
         ChildSpec { mode: Mode::Stream, fail: false, script, omega, wake_on_end }
     }
@@ -39,7 +39,7 @@ impl ChildSpec {
             if self.omega {
                 "Iω".into()
             } else {
-                let s: String = self.script.iter().map(|s| if *s == Step::Item { 'I' } else { 'P' }).collect();
+                let s: String = self.script.iter().map(|s| match s { Step::Item => 'I', Step::ItemWake => 'J', Step::Pend => 'P' }).collect();
                 format!("{}E{}", s, if self.wake_on_end { "!" } else { "" })
             }
         } else if self.fail {
@@ -557,7 +557,13 @@ impl<'a> Run<'a> {
     pub(crate) fn drop_subject(&mut self) {
         if let Some(s) = self.subj.take() {
             w(|w| w.call_id += 1);
-            in_crate(|| drop(s));
+            // a child's destructor may panic: the caller catches it, like any other panic
+            let r = std::panic::catch_unwind(std::panic::AssertUnwindSafe(|| in_crate(|| drop(s))));
+            if let Err(e) = r {
+                if e.downcast_ref::<ChildPanic>().is_none() {
+                    std::panic::resume_unwind(e);
+                }
+            }
             w(|w| w.subject_alive = false);
         }
     }
